@@ -1875,9 +1875,11 @@ func (p *balloons) pinCpuMem(c cache.Container, cpus cpuset.CPUSet, mems idset.I
 			if err != nil {
 				log.Error("failed to parse CpusetMems: %v", err)
 			} else {
+				// The allocation is for accounting only: the container
+				// keeps the memory nodes it came with even if the
+				// allocator had to widen the zone.
 				zone := p.allocMem(c, preserveMems, 0, true)
 				log.Debug("  - allocated preserved memory %s", c.PrettyName, zone)
-				c.SetCpusetMems(zone.MemsetString())
 			}
 		} else {
 			effMemTypeMask, err := c.MemoryTypes()
@@ -1951,6 +1953,9 @@ func (p *balloons) allocMem(c cache.Container, mems idset.IDSet, types libmem.Ty
 
 	for oID, oz := range updates {
 		if oc, ok := p.cch.LookupContainer(oID); ok {
+			if oc.PreserveMemoryResources() {
+				continue
+			}
 			oc.SetCpusetMems(oz.MemsetString())
 		}
 	}
